@@ -1,24 +1,1132 @@
 package verifsim
 
+// Reference implementation of google.api.http: template grammar, matcher on the raw path, binder
+// (request -> message) and its inverse (message -> request), written from the comment block in
+// google/api/http.proto and AIP-127. Nothing here calls into the vanguard package.
+
 import (
+	"encoding/base64"
+	"encoding/json"
 	"fmt"
+	"math"
+	"net/url"
+	"sort"
+	"strconv"
+	"strings"
 
 	"connectrpc.com/vanguard"
+	"google.golang.org/genproto/googleapis/api/annotations"
+	"google.golang.org/protobuf/encoding/protojson"
+	"google.golang.org/protobuf/proto"
 	"google.golang.org/protobuf/reflect/protoreflect"
 )
 
-// refRoute is a binding resolved by the reference router.
-type refRoute struct {
-	method protoreflect.MethodDescriptor
+// ---------------------------------------------------------------------------------------
+// templates
+
+type refSeg struct {
+	kind string // lit | star | dstar
+	lit  string // decoded literal
 }
 
-func (r *refRoute) respIsHTTPBody() bool                  { return false }
-func (r *refRoute) respField() protoreflect.FieldDescriptor { return nil }
+type refVar struct {
+	path       string // field path, proto names
+	start, end int    // segment range [start,end); end == -1: to the end (contains **)
+}
 
-func refRouteFor(st *rpcState) *refRoute { return nil }
+type refTemplate struct {
+	raw   string
+	segs  []refSeg
+	vars  []refVar
+	verb  string
+	allLiteral bool
+}
 
-func installRESTRefs() {}
+func pctDecode(s string, keepSlash bool) (string, bool) {
+	var sb strings.Builder
+	for i := 0; i < len(s); i++ {
+		if s[i] != '%' {
+			sb.WriteByte(s[i])
+			continue
+		}
+		if i+2 >= len(s)+0 && i+2 > len(s)-1 {
+			return "", false
+		}
+		v, err := strconv.ParseUint(s[i+1:i+3], 16, 8)
+		if err != nil {
+			return "", false
+		}
+		if keepSlash && v == '/' {
+			sb.WriteString("%2F")
+		} else {
+			sb.WriteByte(byte(v))
+		}
+		i += 2
+	}
+	return sb.String(), true
+}
+
+func isLiteralChar(c byte) bool {
+	return (c >= 'a' && c <= 'z') || (c >= 'A' && c <= 'Z') || (c >= '0' && c <= '9') || c == '-' || c == '_' || c == '.' || c == '~' || c == '%'
+}
+
+// parseRefTemplate returns nil, reason if the template is not in the grammar.
+func parseRefTemplate(t string) (*refTemplate, string) {
+	rt := &refTemplate{raw: t}
+	if !strings.HasPrefix(t, "/") {
+		return nil, "must start with /"
+	}
+	i := 1
+	seenDstar := false
+	seenVars := map[string]bool{}
+	var parseSegments func(inVar bool) string
+	parseLiteral := func() (string, string) {
+		j := i
+		for j < len(t) && isLiteralChar(t[j]) {
+			j++
+		}
+		if j == i {
+			return "", "empty literal"
+		}
+		d, ok := pctDecode(t[i:j], false)
+		if !ok {
+			return "", "bad escape in literal"
+		}
+		i = j
+		return d, ""
+	}
+	parseSegments = func(inVar bool) string {
+		for {
+			if seenDstar {
+				return "** must be the last segment"
+			}
+			switch {
+			case strings.HasPrefix(t[i:], "**"):
+				rt.segs = append(rt.segs, refSeg{kind: "dstar"})
+				seenDstar = true
+				i += 2
+			case strings.HasPrefix(t[i:], "*"):
+				rt.segs = append(rt.segs, refSeg{kind: "star"})
+				i++
+			case strings.HasPrefix(t[i:], "{"):
+				if inVar {
+					return "nested variable"
+				}
+				i++
+				j := i
+				for j < len(t) && (t[j] == '.' || t[j] == '_' || (t[j] >= 'a' && t[j] <= 'z') || (t[j] >= 'A' && t[j] <= 'Z') || (t[j] >= '0' && t[j] <= '9')) {
+					j++
+				}
+				fp := t[i:j]
+				if fp == "" || strings.HasPrefix(fp, ".") || strings.HasSuffix(fp, ".") || strings.Contains(fp, "..") || (fp[0] >= '0' && fp[0] <= '9') {
+					return "bad field path"
+				}
+				for _, part := range strings.Split(fp, ".") {
+					if part == "" || (part[0] >= '0' && part[0] <= '9') {
+						return "bad field path"
+					}
+				}
+				if seenVars[fp] {
+					return "duplicate variable"
+				}
+				seenVars[fp] = true
+				i = j
+				v := refVar{path: fp, start: len(rt.segs)}
+				if i < len(t) && t[i] == '=' {
+					i++
+					if r := parseSegments(true); r != "" {
+						return r
+					}
+				} else {
+					rt.segs = append(rt.segs, refSeg{kind: "star"})
+				}
+				if i >= len(t) || t[i] != '}' {
+					return "expected }"
+				}
+				i++
+				v.end = len(rt.segs)
+				if seenDstar {
+					v.end = -1
+				}
+				rt.vars = append(rt.vars, v)
+			default:
+				lit, r := parseLiteral()
+				if r != "" {
+					return r
+				}
+				rt.segs = append(rt.segs, refSeg{kind: "lit", lit: lit})
+			}
+			if i < len(t) && t[i] == '/' {
+				i++
+				continue
+			}
+			return ""
+		}
+	}
+	if r := parseSegments(false); r != "" {
+		return nil, r
+	}
+	if i < len(t) && t[i] == ':' {
+		i++
+		lit, r := parseLiteral()
+		if r != "" {
+			return nil, "bad verb"
+		}
+		rt.verb = lit
+	}
+	if i != len(t) {
+		return nil, "trailing characters"
+	}
+	rt.allLiteral = true
+	for _, s := range rt.segs {
+		if s.kind != "lit" {
+			rt.allLiteral = false
+		}
+	}
+	return rt, ""
+}
+
+type refMatch struct {
+	ok       bool
+	captures map[string]string // field path -> captured value (decoded)
+	abstain  string
+}
+
+// matchRaw matches the raw (still percent-encoded) path against the template.
+func (rt *refTemplate) matchRaw(rawPath string) refMatch {
+	if !strings.HasPrefix(rawPath, "/") {
+		return refMatch{}
+	}
+	parts := strings.Split(rawPath[1:], "/")
+	last := parts[len(parts)-1]
+	verb := ""
+	if strings.Count(last, ":") > 1 {
+		return refMatch{abstain: "several ':' in the last segment"}
+	}
+	if k := strings.LastIndex(last, ":"); k >= 0 {
+		verb = last[k+1:]
+		parts[len(parts)-1] = last[:k]
+		if verb == "" {
+			return refMatch{abstain: "trailing ':'"}
+		}
+	}
+	dv, ok := pctDecode(verb, false)
+	if !ok {
+		return refMatch{abstain: "bad escape"}
+	}
+	if dv != rt.verb {
+		return refMatch{}
+	}
+	n := len(rt.segs)
+	hasDstar := n > 0 && rt.segs[n-1].kind == "dstar"
+	if hasDstar {
+		if len(parts) < n-1 {
+			return refMatch{}
+		}
+	} else if len(parts) != n {
+		return refMatch{}
+	}
+	for i, s := range rt.segs {
+		if s.kind == "dstar" {
+			break
+		}
+		if i >= len(parts) {
+			break
+		}
+		d, ok := pctDecode(parts[i], false)
+		if !ok {
+			return refMatch{abstain: "bad escape"}
+		}
+		switch s.kind {
+		case "lit":
+			if d != s.lit {
+				return refMatch{}
+			}
+		case "star":
+			if parts[i] == "" {
+				return refMatch{abstain: "empty segment against *"}
+			}
+		}
+	}
+	if hasDstar && len(parts) == n-1 {
+		return refMatch{abstain: "** would match zero segments"} // the grammar says zero or more; left open here
+	}
+	m := refMatch{ok: true, captures: map[string]string{}}
+	for _, v := range rt.vars {
+		end := v.end
+		if end == -1 {
+			end = len(parts)
+		}
+		multi := v.end == -1 || end-v.start > 1
+		var vals []string
+		for _, p := range parts[v.start:end] {
+			d, ok := pctDecode(p, multi)
+			if !ok {
+				return refMatch{abstain: "bad escape"}
+			}
+			vals = append(vals, d)
+		}
+		m.captures[v.path] = strings.Join(vals, "/")
+	}
+	return m
+}
+
+// ---------------------------------------------------------------------------------------
+// route table
+
+type refBinding struct {
+	method   protoreflect.MethodDescriptor
+	httpMeth string // GET, POST, ..., or custom kind ("*" matches all)
+	tmpl     *refTemplate
+	body     string
+	respBody string
+	svc      *ServicePlan
+}
+
+func (b *refBinding) respField() protoreflect.FieldDescriptor {
+	if b.respBody == "" || b.respBody == "*" {
+		return nil
+	}
+	return b.method.Output().Fields().ByName(protoreflect.Name(b.respBody))
+}
+func (b *refBinding) bodyField() protoreflect.FieldDescriptor {
+	if b.body == "" || b.body == "*" {
+		return nil
+	}
+	return b.method.Input().Fields().ByName(protoreflect.Name(b.body))
+}
+func isHTTPBodyMsg(md protoreflect.MessageDescriptor) bool {
+	return md != nil && md.FullName() == "google.api.HttpBody"
+}
+func (b *refBinding) respIsHTTPBody() bool {
+	if f := b.respField(); f != nil {
+		return !f.IsList() && !f.IsMap() && isHTTPBodyMsg(f.Message())
+	}
+	return isHTTPBodyMsg(b.method.Output())
+}
+func (b *refBinding) reqIsHTTPBody() bool {
+	if f := b.bodyField(); f != nil {
+		return !f.IsList() && !f.IsMap() && isHTTPBodyMsg(f.Message())
+	}
+	return b.body == "*" && isHTTPBodyMsg(b.method.Input())
+}
+
+type refRoute = refBinding
+
+func ruleBindings(md protoreflect.MethodDescriptor, rule *annotations.HttpRule, svc *ServicePlan) ([]*refBinding, string) {
+	var out []*refBinding
+	one := func(r *annotations.HttpRule) string {
+		b := &refBinding{method: md, body: r.GetBody(), respBody: r.GetResponseBody(), svc: svc}
+		var t string
+		switch p := r.GetPattern().(type) {
+		case *annotations.HttpRule_Get:
+			b.httpMeth, t = "GET", p.Get
+		case *annotations.HttpRule_Put:
+			b.httpMeth, t = "PUT", p.Put
+		case *annotations.HttpRule_Post:
+			b.httpMeth, t = "POST", p.Post
+		case *annotations.HttpRule_Delete:
+			b.httpMeth, t = "DELETE", p.Delete
+		case *annotations.HttpRule_Patch:
+			b.httpMeth, t = "PATCH", p.Patch
+		case *annotations.HttpRule_Custom:
+			b.httpMeth, t = p.Custom.GetKind(), p.Custom.GetPath()
+		default:
+			return "no pattern"
+		}
+		tm, reason := parseRefTemplate(t)
+		if tm == nil {
+			return "template " + t + ": " + reason
+		}
+		b.tmpl = tm
+		out = append(out, b)
+		return ""
+	}
+	if r := one(rule); r != "" {
+		return nil, r
+	}
+	for _, ab := range rule.GetAdditionalBindings() {
+		if r := one(ab); r != "" {
+			return nil, r
+		}
+	}
+	return out, ""
+}
+
+// refTable builds the reference route table of a configuration.
+func refTable(cfg *ConfigPlan) []*refBinding {
+	var out []*refBinding
+	for i := range cfg.Services {
+		sp := &cfg.Services[i]
+		sch := getSchema(sp.Schema)
+		if sch == nil {
+			continue
+		}
+		ms := sch.Service.Methods()
+		for j := 0; j < ms.Len(); j++ {
+			md := ms.Get(j)
+			if rule, ok := proto.GetExtension(md.Options(), annotations.E_Http).(*annotations.HttpRule); ok && rule != nil && rule.GetPattern() != nil {
+				bs, _ := ruleBindings(md, rule, sp)
+				out = append(out, bs...)
+			}
+		}
+	}
+	for i := range cfg.Rules {
+		rp := &cfg.Rules[i]
+		for j := range cfg.Services {
+			sp := &cfg.Services[j]
+			sch := getSchema(sp.Schema)
+			if sch == nil {
+				continue
+			}
+			ms := sch.Service.Methods()
+			for k := 0; k < ms.Len(); k++ {
+				md := ms.Get(k)
+				if selectorMatches(rp.Selector, string(md.FullName())) {
+					bs, _ := ruleBindings(md, rp.toProto(), sp)
+					out = append(out, bs...)
+				}
+			}
+		}
+	}
+	return out
+}
+
+// selectorMatches: an exact method name, or a '*'-terminated prefix ending at a name boundary.
+func selectorMatches(sel, full string) bool {
+	if strings.HasSuffix(sel, "*") {
+		p := strings.TrimSuffix(sel, "*")
+		if p == "" {
+			return true
+		}
+		return strings.HasSuffix(p, ".") && strings.HasPrefix(full, p)
+	}
+	return sel == full
+}
+
+type refResolution struct {
+	kind     string // dispatch | notfound | notallowed | abstain
+	binding  *refBinding
+	captures map[string]string
+	allow    []string
+	cands    []*refBinding // when several wildcard templates match: any of them is acceptable
+	why      string
+}
+
+func sameTemplate(a, b *refTemplate) bool {
+	if len(a.segs) != len(b.segs) || a.verb != b.verb {
+		return false
+	}
+	for i := range a.segs {
+		if a.segs[i].kind != b.segs[i].kind || a.segs[i].lit != b.segs[i].lit {
+			return false
+		}
+	}
+	return true
+}
+
+// resolve is the reference routing decision for a REST request.
+func resolveRef(table []*refBinding, httpMethod, rawPath string) refResolution {
+	type hit struct {
+		b *refBinding
+		m refMatch
+	}
+	var hits []hit
+	for _, b := range table {
+		m := b.tmpl.matchRaw(rawPath)
+		if m.abstain != "" {
+			return refResolution{kind: "abstain", why: m.abstain}
+		}
+		if m.ok {
+			hits = append(hits, hit{b, m})
+		}
+	}
+	if len(hits) == 0 {
+		return refResolution{kind: "notfound"}
+	}
+	// literal over wildcard
+	var lit []hit
+	for _, h := range hits {
+		if h.b.tmpl.allLiteral {
+			lit = append(lit, h)
+		}
+	}
+	pool := hits
+	if len(lit) > 0 {
+		pool = lit
+	}
+	oneTemplate := true
+	for _, h := range pool[1:] {
+		if !sameTemplate(pool[0].b.tmpl, h.b.tmpl) {
+			oneTemplate = false
+		}
+	}
+	var withMethod []hit
+	for _, h := range pool {
+		if h.b.httpMeth == httpMethod || h.b.httpMeth == "*" {
+			withMethod = append(withMethod, h)
+		}
+	}
+	if oneTemplate {
+		if len(withMethod) >= 1 {
+			// exact method wins over the custom wildcard kind
+			for _, h := range withMethod {
+				if h.b.httpMeth == httpMethod {
+					return refResolution{kind: "dispatch", binding: h.b, captures: h.m.captures}
+				}
+			}
+			return refResolution{kind: "dispatch", binding: withMethod[0].b, captures: withMethod[0].m.captures}
+		}
+		var allow []string
+		for _, h := range pool {
+			allow = append(allow, h.b.httpMeth)
+		}
+		sort.Strings(allow)
+		return refResolution{kind: "notallowed", allow: allow}
+	}
+	// several different templates match: the statement only orders literal over wildcard
+	var cands []*refBinding
+	for _, h := range pool {
+		cands = append(cands, h.b)
+	}
+	return refResolution{kind: "abstain", why: "several wildcard templates match", cands: cands}
+}
+
+// ---------------------------------------------------------------------------------------
+// binder: request -> message
+
+type bindError struct {
+	msg     string
+	unknown bool // an unknown parameter name, not an ill-typed value: any failure is acceptable
+}
+
+func (e *bindError) Error() string { return e.msg }
+
+func fieldByPath(md protoreflect.MessageDescriptor, path string, jsonNames bool) ([]protoreflect.FieldDescriptor, bool) {
+	var out []protoreflect.FieldDescriptor
+	cur := md
+	parts := strings.Split(path, ".")
+	for i, p := range parts {
+		if cur == nil {
+			return nil, false
+		}
+		var fd protoreflect.FieldDescriptor
+		if jsonNames {
+			fd = cur.Fields().ByJSONName(p)
+		}
+		if fd == nil {
+			fd = cur.Fields().ByName(protoreflect.Name(p))
+		}
+		if fd == nil {
+			return nil, false
+		}
+		out = append(out, fd)
+		if i < len(parts)-1 {
+			if fd.IsList() || fd.IsMap() || fd.Message() == nil {
+				return nil, false
+			}
+			cur = fd.Message()
+		}
+	}
+	return out, true
+}
+
+// refScalarJSON turns a URL parameter string into the JSON literal protojson expects for the field, or fails.
+func refScalarJSON(fd protoreflect.FieldDescriptor, s string) (string, error) {
+	q := func(x string) string { b, _ := json.Marshal(x); return string(b) }
+	isInt := func(x string, signed bool) bool {
+		if x == "" {
+			return false
+		}
+		i := 0
+		if x[0] == '-' {
+			if !signed {
+				return false
+			}
+			i = 1
+		}
+		if i >= len(x) {
+			return false
+		}
+		for ; i < len(x); i++ {
+			if x[i] < '0' || x[i] > '9' {
+				return false
+			}
+		}
+		return true
+	}
+	switch fd.Kind() {
+	case protoreflect.BoolKind:
+		if s == "true" || s == "false" {
+			return s, nil
+		}
+		return "", &bindError{msg: "not a bool"}
+	case protoreflect.Int32Kind, protoreflect.Sint32Kind, protoreflect.Sfixed32Kind:
+		if !isInt(s, true) {
+			return "", &bindError{msg: "not an integer"}
+		}
+		if _, err := strconv.ParseInt(s, 10, 32); err != nil {
+			return "", &bindError{msg: "out of range"}
+		}
+		return s, nil
+	case protoreflect.Int64Kind, protoreflect.Sint64Kind, protoreflect.Sfixed64Kind:
+		if !isInt(s, true) {
+			return "", &bindError{msg: "not an integer"}
+		}
+		if _, err := strconv.ParseInt(s, 10, 64); err != nil {
+			return "", &bindError{msg: "out of range"}
+		}
+		return q(s), nil
+	case protoreflect.Uint32Kind, protoreflect.Fixed32Kind:
+		if !isInt(s, false) {
+			return "", &bindError{msg: "not an unsigned integer"}
+		}
+		if _, err := strconv.ParseUint(s, 10, 32); err != nil {
+			return "", &bindError{msg: "out of range"}
+		}
+		return s, nil
+	case protoreflect.Uint64Kind, protoreflect.Fixed64Kind:
+		if !isInt(s, false) {
+			return "", &bindError{msg: "not an unsigned integer"}
+		}
+		if _, err := strconv.ParseUint(s, 10, 64); err != nil {
+			return "", &bindError{msg: "out of range"}
+		}
+		return q(s), nil
+	case protoreflect.FloatKind, protoreflect.DoubleKind:
+		if s == "NaN" || s == "Infinity" || s == "-Infinity" {
+			return q(s), nil
+		}
+		bits := 64
+		if fd.Kind() == protoreflect.FloatKind {
+			bits = 32
+		}
+		f, err := strconv.ParseFloat(s, bits)
+		if err != nil || math.IsInf(f, 0) || math.IsNaN(f) {
+			return "", &bindError{msg: "not a number"}
+		}
+		return q(s), nil // protojson accepts numbers in strings
+	case protoreflect.StringKind:
+		return q(s), nil
+	case protoreflect.BytesKind:
+		t := strings.TrimRight(s, "=")
+		if _, err := base64.RawStdEncoding.DecodeString(t); err != nil {
+			if _, err2 := base64.RawURLEncoding.DecodeString(t); err2 != nil {
+				return "", &bindError{msg: "not base64"}
+			}
+		}
+		return q(s), nil
+	case protoreflect.EnumKind:
+		if fd.Enum().Values().ByName(protoreflect.Name(s)) != nil {
+			return q(s), nil
+		}
+		if n, err := strconv.ParseInt(s, 10, 32); err == nil {
+			return strconv.FormatInt(n, 10), nil
+		}
+		if fd.Enum().FullName() == "google.protobuf.NullValue" && s == "null" {
+			return "null", nil
+		}
+		return "", &bindError{msg: "unknown enum value"}
+	case protoreflect.MessageKind:
+		switch fd.Message().FullName() {
+		case "google.protobuf.Timestamp", "google.protobuf.Duration", "google.protobuf.FieldMask", "google.protobuf.StringValue", "google.protobuf.BytesValue":
+			return q(s), nil
+		case "google.protobuf.BoolValue", "google.protobuf.Int32Value", "google.protobuf.UInt32Value", "google.protobuf.Int64Value", "google.protobuf.UInt64Value",
+			"google.protobuf.FloatValue", "google.protobuf.DoubleValue":
+			return refScalarJSON(fd.Message().Fields().ByName("value"), s)
+		}
+	}
+	return "", &bindError{msg: "field cannot be a URL parameter"}
+}
+
+// setParam sets (or appends to) the field at path from the parameter string.
+func refSetParam(msg protoreflect.Message, fds []protoreflect.FieldDescriptor, s string) error {
+	cur := msg
+	for _, fd := range fds[:len(fds)-1] {
+		cur = cur.Mutable(fd).Message()
+	}
+	fd := fds[len(fds)-1]
+	if fd.IsMap() {
+		return &bindError{msg: "map fields cannot be URL parameters"}
+	}
+	lit, err := refScalarJSON(fd, s)
+	if err != nil {
+		return err
+	}
+	// decode through protojson into a scratch message holding only this field
+	scratch := cur.New()
+	doc := fmt.Sprintf(`{%q:%s}`, fd.JSONName(), lit)
+	if fd.IsList() {
+		doc = fmt.Sprintf(`{%q:[%s]}`, fd.JSONName(), lit)
+	}
+	if err := (protojson.UnmarshalOptions{}).Unmarshal([]byte(doc), scratch.Interface()); err != nil {
+		return &bindError{msg: "value does not fit the field: " + err.Error()}
+	}
+	if fd.IsList() {
+		l := cur.Mutable(fd).List()
+		sl := scratch.Get(fd).List()
+		for i := 0; i < sl.Len(); i++ {
+			l.Append(sl.Get(i))
+		}
+		return nil
+	}
+	cur.Set(fd, scratch.Get(fd))
+	return nil
+}
+
+// refBind computes the request message of a REST request under binding b. A *bindError means invalid_argument.
+func refBind(b *refBinding, captures map[string]string, rawQuery string, contentType string, body []byte, discardUnknown bool) (proto.Message, error) {
+	msg := newMessageFor(b.method.Input())
+	m := msg.ProtoReflect()
+	switch {
+	case b.body == "":
+		if len(body) > 0 {
+			return nil, &bindError{msg: "body not allowed"}
+		}
+	case b.body == "*":
+		if isHTTPBodyMsg(b.method.Input()) {
+			m.Set(m.Descriptor().Fields().ByName("content_type"), protoreflect.ValueOfString(contentType))
+			m.Set(m.Descriptor().Fields().ByName("data"), protoreflect.ValueOfBytes(body))
+		} else if len(body) > 0 {
+			if err := (protojson.UnmarshalOptions{DiscardUnknown: true}).Unmarshal(body, msg); err != nil {
+				return nil, &bindError{msg: "body: " + err.Error()}
+			}
+		}
+	default:
+		fd := b.bodyField()
+		if fd == nil {
+			return nil, fmt.Errorf("binding names unknown body field %q", b.body)
+		}
+		switch {
+		case !fd.IsList() && !fd.IsMap() && isHTTPBodyMsg(fd.Message()):
+			sub := m.Mutable(fd).Message()
+			sub.Set(sub.Descriptor().Fields().ByName("content_type"), protoreflect.ValueOfString(contentType))
+			sub.Set(sub.Descriptor().Fields().ByName("data"), protoreflect.ValueOfBytes(body))
+		case len(body) == 0:
+		case fd.Message() != nil && !fd.IsList() && !fd.IsMap():
+			if err := (protojson.UnmarshalOptions{DiscardUnknown: true}).Unmarshal(body, m.Mutable(fd).Message().Interface()); err != nil {
+				return nil, &bindError{msg: "body: " + err.Error()}
+			}
+		default:
+			doc := append([]byte(fmt.Sprintf(`{%q:`, fd.JSONName())), body...)
+			doc = append(doc, '}')
+			if err := (protojson.UnmarshalOptions{DiscardUnknown: true}).Unmarshal(doc, msg); err != nil {
+				return nil, &bindError{msg: "body: " + err.Error()}
+			}
+		}
+	}
+	// path variables, in template order
+	for _, v := range b.tmpl.vars {
+		fds, ok := fieldByPath(b.method.Input(), v.path, false)
+		if !ok {
+			return nil, fmt.Errorf("binding names unknown variable %q", v.path)
+		}
+		if err := refSetParam(m, fds, captures[v.path]); err != nil {
+			return nil, &bindError{msg: fmt.Sprintf("path variable %s=%q: %v", v.path, captures[v.path], err)}
+		}
+	}
+	// query parameters
+	q, err := url.ParseQuery(rawQuery)
+	if err != nil {
+		return nil, &bindError{msg: "query: " + err.Error()}
+	}
+	for _, k := range sortedKeys(q) {
+		fds, ok := fieldByPath(b.method.Input(), k, true)
+		if !ok {
+			if discardUnknown {
+				continue
+			}
+			return nil, &bindError{msg: "unknown query parameter " + k, unknown: true}
+		}
+		for _, val := range q[k] {
+			if err := refSetParam(m, fds, val); err != nil {
+				return nil, &bindError{msg: fmt.Sprintf("query parameter %s=%q: %v", k, val, err)}
+			}
+		}
+	}
+	return msg, nil
+}
+
+// ---------------------------------------------------------------------------------------
+// inverse binder: message -> request (used to generate REST client requests)
+
+type restRequest struct {
+	Method, Path, RawQuery string
+	Body                   []byte
+	ContentType            string
+	HasBody                bool
+}
+
+func escapeSegment(s string, multi bool) string {
+	var sb strings.Builder
+	for i := 0; i < len(s); i++ {
+		c := s[i]
+		if (c >= 'a' && c <= 'z') || (c >= 'A' && c <= 'Z') || (c >= '0' && c <= '9') || c == '-' || c == '_' || c == '.' || c == '~' {
+			sb.WriteByte(c)
+		} else {
+			fmt.Fprintf(&sb, "%%%02X", c)
+		}
+	}
+	return sb.String()
+}
+
+// refParamString renders a scalar (or WKT scalar) field value as a URL parameter string.
+func refParamString(fd protoreflect.FieldDescriptor, v protoreflect.Value) (string, bool) {
+	switch fd.Kind() {
+	case protoreflect.BoolKind:
+		return strconv.FormatBool(v.Bool()), true
+	case protoreflect.Int32Kind, protoreflect.Sint32Kind, protoreflect.Sfixed32Kind, protoreflect.Int64Kind, protoreflect.Sint64Kind, protoreflect.Sfixed64Kind:
+		return strconv.FormatInt(v.Int(), 10), true
+	case protoreflect.Uint32Kind, protoreflect.Fixed32Kind, protoreflect.Uint64Kind, protoreflect.Fixed64Kind:
+		return strconv.FormatUint(v.Uint(), 10), true
+	case protoreflect.FloatKind, protoreflect.DoubleKind:
+		f := v.Float()
+		switch {
+		case math.IsNaN(f):
+			return "NaN", true
+		case math.IsInf(f, 1):
+			return "Infinity", true
+		case math.IsInf(f, -1):
+			return "-Infinity", true
+		}
+		bits := 64
+		if fd.Kind() == protoreflect.FloatKind {
+			bits = 32
+		}
+		return strconv.FormatFloat(f, 'g', -1, bits), true
+	case protoreflect.StringKind:
+		return v.String(), true
+	case protoreflect.BytesKind:
+		return base64.URLEncoding.EncodeToString(v.Bytes()), true
+	case protoreflect.EnumKind:
+		if ev := fd.Enum().Values().ByNumber(v.Enum()); ev != nil {
+			return string(ev.Name()), true
+		}
+		return strconv.Itoa(int(v.Enum())), true
+	case protoreflect.MessageKind:
+		sub := v.Message()
+		switch fd.Message().FullName() {
+		case "google.protobuf.Timestamp", "google.protobuf.Duration", "google.protobuf.FieldMask":
+			b, err := protojson.Marshal(sub.Interface())
+			if err != nil {
+				return "", false
+			}
+			var s string
+			if json.Unmarshal(b, &s) != nil {
+				return "", false
+			}
+			return s, true
+		case "google.protobuf.StringValue", "google.protobuf.BytesValue", "google.protobuf.BoolValue", "google.protobuf.Int32Value", "google.protobuf.UInt32Value",
+			"google.protobuf.Int64Value", "google.protobuf.UInt64Value", "google.protobuf.FloatValue", "google.protobuf.DoubleValue":
+			vf := fd.Message().Fields().ByName("value")
+			return refParamString(vf, sub.Get(vf))
+		}
+	}
+	return "", false
+}
+
+func isParamField(fd protoreflect.FieldDescriptor) bool {
+	if fd.IsMap() {
+		return false
+	}
+	if fd.Kind() == protoreflect.GroupKind {
+		return false
+	}
+	if fd.Message() == nil {
+		return true
+	}
+	switch fd.Message().FullName() {
+	case "google.protobuf.Timestamp", "google.protobuf.Duration", "google.protobuf.FieldMask", "google.protobuf.StringValue", "google.protobuf.BytesValue",
+		"google.protobuf.BoolValue", "google.protobuf.Int32Value", "google.protobuf.UInt32Value", "google.protobuf.Int64Value", "google.protobuf.UInt64Value",
+		"google.protobuf.FloatValue", "google.protobuf.DoubleValue":
+		return true
+	}
+	return false
+}
+
+// refEncodeRequest renders msg as a REST request under binding b. ok=false if msg cannot be expressed under b
+// (a path variable is unset or does not fit its sub-template, or a non-parameter field would have to go in the query).
+func refEncodeRequest(b *refBinding, msg proto.Message, useJSONNames bool) (*restRequest, bool) {
+	m := msg.ProtoReflect()
+	req := &restRequest{Method: b.httpMeth}
+	if req.Method == "*" {
+		req.Method = "POST"
+	}
+	used := map[string]bool{} // top-level-or-nested field paths consumed by path / body
+	// path
+	segs := make([]string, len(b.tmpl.segs))
+	for i, s := range b.tmpl.segs {
+		if s.kind == "lit" {
+			segs[i] = escapeSegment(s.lit, false)
+		}
+	}
+	var tail []string
+	for _, v := range b.tmpl.vars {
+		fds, ok := fieldByPath(b.method.Input(), v.path, false)
+		if !ok {
+			return nil, false
+		}
+		cur := m
+		for _, fd := range fds[:len(fds)-1] {
+			if !cur.Has(fd) {
+				return nil, false
+			}
+			cur = cur.Get(fd).Message()
+		}
+		fd := fds[len(fds)-1]
+		if fd.IsList() || fd.IsMap() {
+			return nil, false
+		}
+		s, ok := refParamString(fd, cur.Get(fd))
+		if !ok {
+			return nil, false
+		}
+		used[v.path] = true
+		end := v.end
+		multi := v.end == -1 || v.end-v.start > 1
+		if !multi {
+			if s == "" {
+				return nil, false
+			}
+			segs[v.start] = escapeSegment(s, false)
+			continue
+		}
+		parts := strings.Split(s, "/")
+		if end == -1 {
+			fixed := len(b.tmpl.segs) - 1 - v.start
+			if len(parts) < fixed+1 {
+				return nil, false
+			}
+			for i := 0; i < fixed; i++ {
+				if seg := b.tmpl.segs[v.start+i]; seg.kind == "lit" && seg.lit != parts[i] {
+					return nil, false
+				}
+				if parts[i] == "" {
+					return nil, false
+				}
+				segs[v.start+i] = escapeSegment(parts[i], true)
+			}
+			for _, p := range parts[fixed:] {
+				tail = append(tail, escapeSegment(p, true))
+			}
+			continue
+		}
+		if len(parts) != end-v.start {
+			return nil, false
+		}
+		for i, p := range parts {
+			if seg := b.tmpl.segs[v.start+i]; seg.kind == "lit" && seg.lit != p {
+				return nil, false
+			}
+			if p == "" {
+				return nil, false
+			}
+			segs[v.start+i] = escapeSegment(p, true)
+		}
+	}
+	n := len(segs)
+	if n > 0 && b.tmpl.segs[n-1].kind == "dstar" {
+		segs = segs[:n-1]
+		if len(tail) == 0 {
+			return nil, false
+		}
+		segs = append(segs, tail...)
+	}
+	for i, s := range b.tmpl.segs {
+		if s.kind == "star" && i < len(segs) && segs[i] == "" {
+			return nil, false // a bare * outside any variable: nothing to put there
+		}
+	}
+	req.Path = "/" + strings.Join(segs, "/")
+	if b.tmpl.verb != "" {
+		req.Path += ":" + escapeSegment(b.tmpl.verb, false)
+	}
+	// body
+	switch {
+	case b.body == "*":
+		req.HasBody = true
+		if isHTTPBodyMsg(b.method.Input()) {
+			req.ContentType = m.Get(m.Descriptor().Fields().ByName("content_type")).String()
+			req.Body = m.Get(m.Descriptor().Fields().ByName("data")).Bytes()
+		} else {
+			cp := proto.Clone(msg)
+			clearPaths(cp.ProtoReflect(), used)
+			req.Body, _ = protojson.Marshal(cp)
+			req.ContentType = "application/json"
+		}
+		return req, true
+	case b.body != "":
+		fd := b.bodyField()
+		if fd == nil {
+			return nil, false
+		}
+		req.HasBody = true
+		used[string(fd.Name())] = true
+		switch {
+		case !fd.IsList() && !fd.IsMap() && isHTTPBodyMsg(fd.Message()):
+			sub := m.Get(fd).Message()
+			req.ContentType = sub.Get(sub.Descriptor().Fields().ByName("content_type")).String()
+			req.Body = sub.Get(sub.Descriptor().Fields().ByName("data")).Bytes()
+		case fd.Message() != nil && !fd.IsList() && !fd.IsMap():
+			req.Body, _ = protojson.Marshal(m.Get(fd).Message().Interface())
+			req.ContentType = "application/json"
+		default:
+			whole, _ := protojson.MarshalOptions{EmitUnpopulated: true}.Marshal(msg)
+			var obj map[string]json.RawMessage
+			_ = json.Unmarshal(whole, &obj)
+			req.Body = obj[fd.JSONName()]
+			req.ContentType = "application/json"
+		}
+	}
+	// query: every populated field not yet used must be a parameter type
+	var q []string
+	var walk func(prefixProto, prefixJSON string, cur protoreflect.Message) bool
+	walk = func(prefixProto, prefixJSON string, cur protoreflect.Message) bool {
+		ok := true
+		fields := cur.Descriptor().Fields()
+		for i := 0; i < fields.Len() && ok; i++ {
+			fd := fields.Get(i)
+			if !cur.Has(fd) {
+				continue
+			}
+			pp := prefixProto + string(fd.Name())
+			pj := prefixJSON + fd.JSONName()
+			if !useJSONNames {
+				pj = pp
+			}
+			if used[pp] {
+				continue
+			}
+			switch {
+			case isParamField(fd) && fd.IsList():
+				l := cur.Get(fd).List()
+				for j := 0; j < l.Len(); j++ {
+					s, k := refParamString(fd, l.Get(j))
+					if !k {
+						return false
+					}
+					q = append(q, goQueryEscape(pj)+"="+goQueryEscape(s))
+				}
+			case isParamField(fd):
+				s, k := refParamString(fd, cur.Get(fd))
+				if !k {
+					return false
+				}
+				q = append(q, goQueryEscape(pj)+"="+goQueryEscape(s))
+			case fd.Message() != nil && !fd.IsList() && !fd.IsMap() && !opaqueJSONMessage(fd.Message()):
+				ok = walk(pp+".", pj+".", cur.Get(fd).Message())
+			default:
+				return false
+			}
+		}
+		return ok
+	}
+	if !walk("", "", m) {
+		return nil, false
+	}
+	req.RawQuery = strings.Join(q, "&")
+	return req, true
+}
+
+// clearPaths clears the fields named by dotted proto paths.
+func clearPaths(m protoreflect.Message, paths map[string]bool) {
+	for p := range paths {
+		fds, ok := fieldByPath(m.Descriptor(), p, false)
+		if !ok {
+			continue
+		}
+		cur := m
+		reach := true
+		for _, fd := range fds[:len(fds)-1] {
+			if !cur.Has(fd) {
+				reach = false
+				break
+			}
+			cur = cur.Mutable(fd).Message()
+		}
+		if reach {
+			cur.Clear(fds[len(fds)-1])
+		}
+	}
+}
+
+// ---------------------------------------------------------------------------------------
+// glue used by the scripted peers
+
+// refRouteFor resolves the binding a REST client's request should reach (nil if none / abstain).
+func refRouteFor(st *rpcState) *refRoute {
+	if st.cfg == nil || st.req == nil {
+		return nil
+	}
+	raw := st.orig.RequestURI
+	if i := strings.IndexByte(raw, '?'); i >= 0 {
+		raw = raw[:i]
+	}
+	res := resolveRef(refTable(st.cfg), st.orig.Method, raw)
+	if res.kind != "dispatch" {
+		return nil
+	}
+	return res.binding
+}
+
+func installRESTRefs() {
+	for _, sch := range schemas {
+		sch := sch
+		// REST backend: decode the request the transcoder built under the reference binder
+		sch.restDecode = func(obs *BackendObs, payload []byte) (proto.Message, string, string) {
+			cfg := &ConfigPlan{Services: []ServicePlan{{Schema: sch.Name}}, Rules: obs.rules}
+			// like any Go handler or reverse proxy: the request's URL (not the client's original request-URI) is what counts
+			raw := (&url.URL{Path: obs.Path, RawPath: obs.RawPath}).EscapedPath()
+			res := resolveRef(refTable(cfg), obs.Method, raw)
+			if res.kind != "dispatch" {
+				return nil, "", fmt.Sprintf("request %s %s does not resolve to a binding of this service (%s %s)", obs.Method, raw, res.kind, res.why)
+			}
+			msg, err := refBind(res.binding, res.captures, obs.RawQuery, obs.Header.Get("Content-Type"), payload, false)
+			if err != nil {
+				return nil, string(res.binding.method.FullName()), err.Error()
+			}
+			obs.binding = res.binding
+			return msg, string(res.binding.method.FullName()), ""
+		}
+		sch.restEncodeResp = func(obs *BackendObs, data []byte) ([]byte, string) {
+			b := obs.binding
+			if b == nil {
+				return data, ""
+			}
+			m := newMessageFor(b.method.Output())
+			if proto.Unmarshal(data, m) != nil {
+				return data, ""
+			}
+			return refEncodeResponse(b, m)
+		}
+	}
+}
+
+// refEncodeResponse renders the REST response body of msg under binding b.
+func refEncodeResponse(b *refBinding, m proto.Message) ([]byte, string) {
+	r := m.ProtoReflect()
+	if f := b.respField(); f != nil {
+		switch {
+		case !f.IsList() && !f.IsMap() && isHTTPBodyMsg(f.Message()):
+			sub := r.Get(f).Message()
+			return sub.Get(sub.Descriptor().Fields().ByName("data")).Bytes(), sub.Get(sub.Descriptor().Fields().ByName("content_type")).String()
+		case f.Message() != nil && !f.IsList() && !f.IsMap():
+			out, _ := protojson.Marshal(r.Get(f).Message().Interface())
+			return out, "application/json"
+		default:
+			whole, _ := protojson.MarshalOptions{EmitUnpopulated: true}.Marshal(m)
+			var obj map[string]json.RawMessage
+			_ = json.Unmarshal(whole, &obj)
+			return obj[f.JSONName()], "application/json"
+		}
+	}
+	if isHTTPBodyMsg(b.method.Output()) {
+		return r.Get(r.Descriptor().Fields().ByName("data")).Bytes(), r.Get(r.Descriptor().Fields().ByName("content_type")).String()
+	}
+	out, _ := protojson.Marshal(m)
+	return out, "application/json"
+}
 
 func alternateSchema(via string, sch *Schema) (protoreflect.ServiceDescriptor, []vanguard.ServiceOption, error) {
-	return nil, nil, fmt.Errorf("schema provenance %q not implemented", via)
+	return alternateSchemaImpl(via, sch)
 }
